@@ -532,6 +532,7 @@ reprocess:
 		case '+': /* a sign should be used, ignore */
 		case '\'': /* group in thousands, ignore */
 		case 'I': /* glibc-ism locale alternative, ignore */
+		case 'h': /* short / char: the argument is passed as int, ignore */
                     format++;
                     goto reprocess;
 		case '.': /* precision, ignore */
@@ -799,6 +800,7 @@ reprocess:
 		case '+': /* a sign should be used, ignore */
 		case '\'': /* group in thousands, ignore */
 		case 'I': /* glibc-ism locale alternative, ignore */
+		case 'h': /* short / char: the argument was stored as int */
 		case '.': /* precision, ignore */
 		case '0': /* field width, ignore */
 		case '1': /* field width, ignore */
